@@ -29,6 +29,7 @@ def main():
         rp = json.load(open(a.replay))
         sys.exit(mod.replay(ctx, rp))
     ctx.audit()
+    ctx.t0 = __import__('time').time()   # time budgets of the harnesses start after the Lean build / audit
     try:
         mod.run(ctx)
     except Exception:
